@@ -146,4 +146,8 @@ package wtxmgr
 //@ auto C10 modifies wfault
 //@   ensures fault_reported: wfault && !old(wfault) ==> err != nil
 //@   ensures fault_not_masked_as_duplicate: wfault && !old(wfault) ==> err != ErrDuplicateTx
+//@   ensures ns_frame: forall id Int :: {select(DBhas, id)} {select(DBval, id)} {select(DBlive, id)} id != bid(ns) && !under(id, bid(ns)) ==>
+//@       select(DBhas, id) == select(old(DBhas), id) && select(DBval, id) == select(old(DBval), id) && select(DBlive, id) == select(old(DBlive), id)
 //@   loopinv no_new_fault: wfault ==> old(wfault)
+//@   loopinv ns_frame_inv: forall id Int :: {select(DBhas, id)} {select(DBval, id)} {select(DBlive, id)} id != bid(ns) && !under(id, bid(ns)) ==>
+//@       select(DBhas, id) == select(old(DBhas), id) && select(DBval, id) == select(old(DBval), id) && select(DBlive, id) == select(old(DBlive), id)
